@@ -42,6 +42,67 @@ def repo_corpus_cases(root, large=False):
     return cases
 
 
+def corpus_projection(indir, start):
+    """what the current tree generates for a corpus input, in the normalised form the golden files are written in"""
+    import tempfile
+    out = tempfile.mktemp(prefix="zv-corpus-", suffix=".rs", dir="/var/tmp")
+    try:
+        rc, o, e = sh([ZV, "gen", indir, start, out])
+        last = o.strip().split("\n")[-1] if o.strip() else f"crash rc={rc}"
+        if not last.startswith("ok"):
+            return ["OUTCOME\t" + last]
+        src = open(out).read()
+        cut = src.find("pub mod error {")
+        open(out, "w").write(src[:cut] if cut >= 0 else src)
+        rc, o, e = sh([ZV, "obs", out])
+        obs = g.parse_obs([l for l in o.split("\n") if l])
+        A = g.assignment(obs)
+        lines = g.normalize_structs(obs, A, include_root=True)
+        lines += [f"MODULE\t{A['mod2uri'].get(m, '?' + m)}" for m in obs["mods"]]
+        lines += [f"CHECK\t{A['mod2uri'].get(c['mod'], '?' + c['mod'])}\t{c['name']}\t{' '.join(c['body'].split())}" for c in obs["checks"] if "Restrictions" in c["body"]]
+        return sorted(lines)
+    finally:
+        if os.path.exists(out):
+            os.remove(out)
+
+
+def corpus_failures():
+    """the targeted corpus (corpus/<case>/): inputs written for shapes the random generator rarely produces, each with a golden
+    projection that was reviewed by hand against the property statements. Returns [(class, message, case)]."""
+    root = os.path.join(VERIF, "corpus")
+    out, n = [], 0
+    for name in sorted(os.listdir(root)) if os.path.isdir(root) else []:
+        d = os.path.join(root, name)
+        gp = os.path.join(d, "golden.txt")
+        if not os.path.exists(gp):
+            continue
+        n += 1
+        start = open(os.path.join(d, "start.txt")).read().strip()
+        want = [l for l in open(gp).read().split("\n") if l]
+        have = corpus_projection(os.path.join(d, "in"), start)
+        if have != want:
+            missing = [l for l in want if l not in have]
+            extra = [l for l in have if l not in want]
+            case = {"dir": d, "in": os.path.join(d, "in"), "start": start, "meta": {"features": "corpus " + name}, "impl": have[0] if have and have[0].startswith("OUTCOME") else "ok", "ref": None}
+            out.append(("corpus-" + name, f"corpus/{name} ({open(os.path.join(d, 'note.txt')).read().strip()}): expected but not generated: {missing[:2]}; generated but not expected: {extra[:2]}", case))
+    return out, n
+
+
+def verif_corpus_cases(root):
+    """the targeted corpus as ordinary cases (model/implementation correspondence, rustc in C01)"""
+    cases = []
+    croot = os.path.join(VERIF, "corpus")
+    for name in sorted(os.listdir(croot)) if os.path.isdir(croot) else []:
+        d = os.path.join(croot, name)
+        if not os.path.exists(os.path.join(d, "start.txt")):
+            continue
+        cd = os.path.join(root, "corpus-" + name)
+        shutil.copytree(os.path.join(d, "in"), os.path.join(cd, "in"))
+        cases.append({"dir": cd, "in": os.path.join(cd, "in"), "start": open(os.path.join(d, "start.txt")).read().strip(),
+                      "meta": {"features": "targeted-corpus", "source": "corpus/" + name, "corpus": name}, "ref": None})
+    return cases
+
+
 def input_hash(case):
     h = hashlib.sha256()
     for f in sorted(os.listdir(case["in"])):
@@ -99,7 +160,7 @@ def run_structural(pid, tier, seed, prop_module, audit_file, profiles, oracle, p
     model_ok, model_err = c.lake_build(["zvdrv"])
 
     root = g.scratch(f"{pid}-{tier}-{seed}")
-    cases = repo_corpus_cases(root, large=(tier == "thorough"))
+    cases = repo_corpus_cases(root, large=(tier == "thorough")) + verif_corpus_cases(root)
     escalate = (not proved) or (not model_ok)
     for (profile, nq, nt) in profiles:
         n = nq if tier == "quick" else nt
@@ -162,6 +223,10 @@ def run_structural(pid, tier, seed, prop_module, audit_file, profiles, oracle, p
     })
     c.assumptions += list(note_assumptions)
 
+    cf, ncorpus = corpus_failures()
+    oracle_fail += cf
+    c.cov["targeted_corpus"] = {"cases": ncorpus, "differ_from_reviewed_golden": len(cf)}
+    c.cov["oracle_failures"] = len(oracle_fail)
     if extra is not None:
         # property-specific additional observation (e.g. rustc on compiled batches); may add violations
         for cls, msg, case in extra(c, cases):
